@@ -570,9 +570,12 @@ func (e *liveEnv) liveStream(r *h.Run, rng *h.Rng, mode, fam, kind, proto string
 	c.afterCall(true)
 }
 
-func (e *liveEnv) liveUnary(r *h.Run, mode, fam, proto string, h2 bool, prog hprog) (result error, returned bool) {
+func (e *liveEnv) liveUnary(r *h.Run, mode, fam, proto string, h2 bool, prog hprog, extra ...connect.ClientOption) (result error, returned bool) {
 	c, url, hc := e.newCall(r, mode, fam, "unary", proto, h2, prog)
-	client := connect.NewClient[h.Raw, h.Raw](hc, url, liveClientOpts(proto)...)
+	client := connect.NewClient[h.Raw, h.Raw](hc, url, append(liveClientOpts(proto), extra...)...)
+	if len(extra) > 0 {
+		c.log = append(c.log, "[the client limits response messages to 16 bytes]")
+	}
 	req := connect.NewRequest(bigMsg(32))
 	if prog.Slow == -1 {
 		// a request message the codec refuses to marshal: Send fails locally, before anything is
@@ -989,6 +992,12 @@ func liveFamily(r *h.Run, rng *h.Rng, fam string, cancelMode bool) {
 		for i := 0; i < n; i++ {
 			one(nil)
 		}
+		setDelays(nil)
+		for _, proto := range protos {
+			e.liveRejected(r, fam, "bidi", proto, true)
+			e.liveRejected(r, fam, "client", proto, rng.Bool())
+			e.liveRejected(r, fam, "unary", proto, rng.Bool())
+		}
 		per := r.N(2, 8)
 		for _, p := range dxYieldPoints {
 			for i := 0; i < per; i++ {
@@ -1056,6 +1065,10 @@ func liveFamily(r *h.Run, rng *h.Rng, fam string, cancelMode bool) {
 		for _, h2 := range []bool{false, true} {
 			for own := 1; own <= 2; own++ {
 				prog := hprog{Own: own}
+				// (also with a client that limits the size of response MESSAGES: an error is not one)
+				if _, ok := e.liveUnary(r, "C15", fam, proto, h2, prog, connect.WithReadMaxBytes(16)); !ok {
+					continue
+				}
 				err, ok := e.liveUnary(r, "C15", fam, proto, h2, prog)
 				if !ok {
 					continue
@@ -1078,6 +1091,52 @@ func liveFamily(r *h.Run, rng *h.Rng, fam string, cancelMode bool) {
 			e.liveCancel(r, rng, fam, cb.kind, protos[rng.Intn(3)], h2, cb.instant, rng.Bool())
 		}
 	}
+}
+
+// alienCodec is a codec no handler of the live servers has: its calls are answered with 415
+// before any user code runs.
+type alienCodec struct{ h.ToyCodec }
+
+func (alienCodec) Name() string { return "alien" }
+
+// liveRejected: the handler refuses the call on its Content-Type. Whatever the client program,
+// every operation returns in bounded time — in particular a Receive made while the request side
+// is still open.
+func (e *liveEnv) liveRejected(r *h.Run, fam, kind, proto string, h2 bool) {
+	c, url, hc := e.newCall(r, "C14", fam, kind, proto, h2, hprog{})
+	opts := liveClientOpts(proto)
+	opts = append(opts, connect.WithCodec(alienCodec{}))
+	client := connect.NewClient[h.Raw, h.Raw](hc, url, opts...)
+	c.log = append(c.log, "[the client's codec is one the handler does not have: the call is answered with 415]")
+	r.Eval(fam, fmt.Sprintf("rejected/%s/%s/%v", kind, proto, h2))
+	switch kind {
+	case "bidi":
+		st := client.CallBidiStream(context.Background())
+		c.step("Send", func() error { return st.Send(bigMsg(16)) })
+		err, ok := c.step("Receive (request side still open)", func() error { _, err := st.Receive(); return err })
+		if ok && err == nil {
+			c.r.Fail(h.Failure{Key: "outcome/rejected-call-succeeded", Family: fam, What: "Receive succeeded on a call the handler refused", Input: c.input()})
+		}
+		c.step("CloseRequest", func() error { return st.CloseRequest() })
+		c.step("CloseResponse", func() error { return st.CloseResponse() })
+	case "client":
+		st := client.CallClientStream(context.Background())
+		c.step("Send", func() error { return st.Send(bigMsg(16)) })
+		err, ok := c.step("CloseAndReceive", func() error { _, err := st.CloseAndReceive(); return err })
+		if ok && err == nil {
+			c.r.Fail(h.Failure{Key: "outcome/rejected-call-succeeded", Family: fam, What: "CloseAndReceive succeeded on a call the handler refused", Input: c.input()})
+		}
+	default:
+		err, ok := c.step("CallUnary", func() error {
+			_, err := client.CallUnary(context.Background(), connect.NewRequest(bigMsg(16)))
+			return err
+		})
+		if ok && err == nil {
+			c.r.Fail(h.Failure{Key: "outcome/rejected-call-succeeded", Family: fam, What: "CallUnary succeeded on a call the handler refused", Input: c.input()})
+		}
+	}
+	r.Sample(fam, c.input())
+	c.afterCall(true)
 }
 
 // liveEarlyHeaders: the peer has sent its response headers while the request
